@@ -9,7 +9,13 @@
 // alphabet also moves the BASE's own cwd (base.Chdir, not through the
 // wrapper) into B, to B, to the prefix sibling, to B's ancestors and to an
 // unrelated directory; the reference's cwd is then the virtual counterpart,
-// "/" when the base's cwd is outside B. No sampling.
+// "/" when the base's cwd is outside B. The views handed out by Sub are part of
+// the wrapper's surface: the alphabet makes calls through v.Sub(d) (absolute,
+// "/../x" and base-namespace operands) and creates symbolic links through the
+// view (targets outside B in the base's namespace, inside the view, relative
+// and climbing) which are then read and written through the wrapper and
+// through the view; same oracle, the reference being the reference's own Sub
+// view. No sampling.
 //
 // Oracle on every call:
 //  1. everything outside B in the base (node-graph lines of VerifDump + exact
@@ -300,15 +306,15 @@ func main() {
 	}
 
 	segs := tierSegs(*tier)
-	bound := fmt.Sprintf("histories of length <= %d (completed %d); level 1: full alphabet of %d operations = all strings of <= %d segments over %v, abs/rel, as-is/trailing-slash/doubled-slash x %d single-path calls + %d-string core squared x Rename/Link/Symlink + Getwd + %d fixed Glob patterns + %d strings naming the prefix sibling %s of B x the single-path calls + base.Chdir(d) on the base itself, d in %v, each followed by Getwd, Abs(\"f\"), Stat(\"f\") through the wrapper; level k >= 2: Getwd, the Glob patterns, the base.Chdir operations and the operations whose path operands are relative or contain '..' and have <= %v segments (levels 2..): %d operations at level 2, %d at level 3",
-		d, depthDone, perLevel[1], segs[0], segAlphabet, len(singleCalls), len(pairCore), len(fixedGlobs), len(siblingStrings), siblingPath, baseChdirTargets, segs[1:], perLevel[2], perLevel[3])
+	bound := fmt.Sprintf("histories of length <= %d (completed %d); level 1: full alphabet of %d operations = all strings of <= %d segments over %v, abs/rel, as-is/trailing-slash/doubled-slash x %d single-path calls + %d-string core squared x Rename/Link/Symlink + Getwd + %d fixed Glob patterns + %d strings naming the prefix sibling %s of B x the single-path calls + base.Chdir(d) on the base itself, d in %v, each followed by Getwd, Abs(\"f\"), Stat(\"f\") through the wrapper + through the view sv=Sub(d), d in %v: %d operand strings x the single-path calls and %d operand pairs x Rename/Link/Symlink on sv (level 1 only) + sv.Symlink(t,%q) for %d targets t followed either by Lstat, Stat, ReadFile, ReadDir of the link through the wrapper and Stat, ReadFile through sv, or by WriteFile through the wrapper and through sv (all levels); level k >= 2: Getwd, the Glob patterns, the base.Chdir operations, the Sub-Symlink operations and the operations whose path operands are relative or contain '..' and have <= %v segments (levels 2..): %d operations at level 2, %d at level 3",
+		d, depthDone, perLevel[1], segs[0], segAlphabet, len(singleCalls), len(pairCore), len(fixedGlobs), len(siblingStrings), siblingPath, baseChdirTargets, subDirs, len(subPaths), len(subPairs), subLinkName, len(subLinkTargets), segs[1:], perLevel[2], perLevel[3])
 
 	e := ev.Evidence{
 		PropertyID: *id, Tier: *tier, Seed: ev.Seed(), Level: "model_checking",
 		Coverage: map[string]any{
 			"states": states, "transitions": trans, "traces_validated_against_impl": trans,
 			"evaluations": trans, "distinct_nontrivial": len(classes),
-			"rule":                    "every history of length <= bound over the level alphabets executed on a fresh real BasePathFS(base,/top/b) and, in lock-step, on a standalone reference of the same type (a base.Chdir(d) of the alphabet acts on the base directly; the reference's cwd becomes d minus /top/b when d is in B, else \"/\"); distinct_nontrivial = distinct (call, reference outcome kinds, lexical class of the path operand(s), class of the base's cwd when it is outside B) observed on executed transitions",
+			"rule":                    "every history of length <= bound over the level alphabets executed on a fresh real BasePathFS(base,/top/b) and, in lock-step, on a standalone reference of the same type (a base.Chdir(d) of the alphabet acts on the base directly; the reference's cwd becomes d minus /top/b when d is in B, else \"/\"; an operation through Sub(d) is made on the wrapper's view and on the reference's view of d); distinct_nontrivial = distinct (call, reference outcome kinds, lexical class of the path operand(s), class of the base's cwd when it is outside B) observed on executed transitions",
 			"samples":                 samples,
 			"exhaustive":              exh,
 			"bound":                   bound,
@@ -330,6 +336,7 @@ func main() {
 			"returned and error-embedded path strings (Getwd, Abs, Glob, WalkDir, File.Name, Readlink, EvalSymlinks, PathError.Path, LinkError.Old/New) are compared after normalising both sides to the absolute cleaned virtual form (Clean(p) if absolute, else Clean(Join(virtual cwd before the call, p))); a different spelling of the same virtual location is counted as spelling_only_path_eqs, not as a violation; a different location is kind value/error-path, or leak when the wrapper's path carries the base prefix /top/b or /top and the reference's does not",
 			"BasePathFS does not advertise FeatSymlink: for Symlink/Readlink/EvalSymlinks over a MemFS base the reference answer is that of a file system without symbolic links (EPERM, arguments as given, no effect)",
 			"where the reference itself panics or deadlocks on a call (kind note:ref-defect) or cannot address its root (OrefaFS, kind note:ref-root-unaddressable) nothing is demanded of the outcome; the outside-B snapshot and the leak test still apply",
+			"views returned by Sub are obtained and used inside one step (no view survives a step) for d in /a and /; over an OrefaFS base Sub is refused on both sides and nothing follows. A view that does not advertise FeatSymlink is expected to refuse Symlink/Readlink/EvalSymlinks as the wrapper does (EPERM, arguments as given, no effect); otherwise every call through the view, and every later call through the wrapper on what was created through it, must have the outcome and effect of the same call on the reference's Sub view / the reference. A read through the wrapper or a view that returns what the base holds at the place the operand or link target names in the BASE's namespace, outside B (outside the view), is kind outside-read; signatures of these steps have call Sub:<call> or SubLink[W].<sub-call>, path sub:<class> or link:abs|rel,<escape|view-existing|view-missing>, reach inside|above-view|outside-existing|outside-missing",
 			"file handles are exercised inside compound operations (Open/OpenFile, methods, Close): no handle survives a step",
 		},
 		Violations: rep.NewCount(),
